@@ -261,55 +261,76 @@ def run(chk, prog):
 
     # ---- U2: rename(dump -> backup 0) iff (max>0 and restarts>0), before the open
     def cond_on(e, field):
+        """(op, constant) when e compares this->field with an integer constant (either order), else None."""
         e = C.strip_casts(e)
-        if e.get("k") == "Bin" and e["op"] in (">", "!=") and C.member_name(e["a"]) == field \
-                and C.const_int(e["b"]) == 0:
-            return True
-        return False
+        if e.get("k") == "Bin" and e["op"] in (">", ">=", "<", "<=", "!=", "=="):
+            if C.member_name(e["a"]) == field and C.const_int(e["b"]) is not None:
+                return e["op"], C.const_int(e["b"])
+            if C.member_name(e["b"]) == field and C.const_int(e["a"]) is not None:
+                flip = {">": "<", ">=": "<=", "<": ">", "<=": ">=", "!=": "!=", "==": "=="}
+                return flip[e["op"]], C.const_int(e["a"])
+        if C.member_name(e) == field:
+            return "!=", 0
+        return None
+
+    def holds(v, op, c):
+        if not (0 <= c <= 2):
+            raise AnalysisBroken("get_restart_writer compares a counter with %d: outside the classes 0 / 1 / >=2" % c)
+        if v == 2 and c == 2 and op in ("==", "!=", "<=", ">"):
+            raise AnalysisBroken("get_restart_writer distinguishes counter values above 2")
+        return {">": v > c, ">=": v >= c, "<": v < c, "<=": v <= c, "!=": v != c, "==": v == c}[op]
 
     found = {"max": 0, "rst": 0}
 
     def transfer(node, st):
-        mx, rs, ren, opened = st
+        mx, rs, ren, opened, rs_live = st
         if node.kind == "branch":
-            if cond_on(node.ast, "_maximum_number_of_backups"):
+            c1 = cond_on(node.ast, "_maximum_number_of_backups")
+            if c1:
                 found["max"] += 1
-                return [(True, (True, rs, ren, opened)), (False, (False, rs, ren, opened))]
-            if cond_on(node.ast, "_number_of_restarts"):
+                return [(holds(mx, *c1), st)]
+            c2 = cond_on(node.ast, "_number_of_restarts")
+            if c2 and rs_live:
                 found["rst"] += 1
-                return [(True, (mx, True, ren, opened)), (False, (mx, False, ren, opened))]
+                return [(holds(rs, *c2), st)]
         if any(node is n for n, _ in dump_renames):
-            st = (mx, rs, ren + 1 if ren < 2 else 2, opened)
+            st = (mx, rs, ren + 1 if ren < 2 else 2, opened, rs_live)
             return [(None, st)]
         if node.kind in ("stmt", "decl", "return") and node.ast.get("k") != "Abort":
             for key, op, x in _writes(node.ast):
-                if key == ("mem", ("this",), "_number_of_restarts") and rs is not None:
-                    rs = None if not opened else rs
+                if key == ("mem", ("this",), "_number_of_restarts") and not opened:
+                    rs_live = False       # the counter no longer holds the entry value
+                    st = (mx, rs, ren, opened, rs_live)
         if node is open_node:
-            return [(None, (mx, rs, ren, True))]
+            return [(None, (mx, rs, ren, True, rs_live))]
         return [(None, st)]
 
-    ex = C.explore(g, (None, None, 0, False), transfer)
+    n_u2 = 0
+    ex = None
+    for mx0 in (0, 1, 2):
+        for rs0 in (0, 1, 2):
+            ex = C.explore(g, (mx0, rs0, 0, False, True), transfer)
+            for st in ex.at.get(open_node.id, ()):
+                mx, rs, ren, opened, rs_live = st
+                n_u2 += 1
+                want = 1 if (mx > 0 and rs > 0) else 0
+                names = {0: "0", 1: "1", 2: ">= 2"}
+                inst = "open with maximum number of backups %s and %s earlier dump(s)" % (names[mx], names[rs])
+                chk.require(ren == want and not opened, "U2", inst, where(open_x, fn),
+                            "on the path through lines %s the dump name is %s before the truncating open, "
+                            "expected %d rename(s) to backup 0" %
+                            (ex.path_lines(open_node.id, st), "renamed %d time(s)" % ren, want),
+                            function=fn["qname"], construct=inst)
+            if not all(st[3] for st in ex.at.get(g.exit.id, ())):
+                chk.fail("U2", "every return follows the open", where(fn), "a path reaches the exit without opening the restart "
+                         "file", function=fn["qname"])
     if not found["max"] or not found["rst"]:
         raise AnalysisBroken("the guards on _maximum_number_of_backups/_number_of_restarts were not "
                              "found in get_restart_writer")
-    n_u2 = 0
-    for st in ex.at.get(open_node.id, ()):
-        mx, rs, ren, opened = st
-        n_u2 += 1
-        want = 1 if (mx is True and rs is True) else 0
-        inst = "open with backups_configured=%s previous_dump=%s" % (mx, rs)
-        chk.require(ren == want and not opened, "U2", inst, where(open_x, fn),
-                    "on the path through lines %s the dump name is %s before the truncating open, "
-                    "expected %d rename(s) to backup 0" %
-                    (ex.path_lines(open_node.id, st), "renamed %d time(s)" % ren, want),
-                    function=fn["qname"], construct=inst)
-    chk.floor("U2", n_u2, 3)
-    # the writer is created exactly once on every path to the exit and is what is returned
-    okret = all(st[3] for st in ex.at.get(g.exit.id, ()))
+    chk.floor("U2", n_u2, 9)
     rets = [n for n in g.nodes if n.kind == "return"]
-    chk.require(okret and len(rets) >= 1, "U2", "every return follows the open", where(fn),
-                "a path reaches the exit without opening the restart file", function=fn["qname"])
+    chk.require(len(rets) >= 1, "U2", "every return follows the open", where(fn),
+                "no return statement", function=fn["qname"])
     # backup 0 is the rename target
     for n, x in dump_renames:
         tgt = _root_local(x["a"][1])
@@ -511,6 +532,15 @@ def run(chk, prog):
                              "found %d" % len(decl_nodes))
     dnode, dvar = decl_nodes[0]
 
+    raii = "unique_ptr" in (dvar.get("t") or "")
+    writer_ids = {dvar["id"]}
+    for node in gd.nodes:
+        if node.kind == "decl":
+            for d in node.ast["d"]:
+                if d.get("init") is not None and (d.get("t") or "").rstrip().endswith("&") and \
+                        any(x.get("k") == "Ref" and x.get("id") in writer_ids for x in C.walk(d["init"])):
+                    writer_ids.add(d["id"])      # RestartWriter &alias = *owner;
+
     def is_delete_of(node, vid):
         if node.kind != "stmt" or node.ast.get("k") == "Abort":
             return False
@@ -523,10 +553,23 @@ def run(chk, prog):
         for x in C.walk(node.ast):
             if x.get("k") == "Call":
                 for a in ([x["obj"]] if x.get("obj") is not None else []) + x["a"]:
-                    kk = C.ref_key(a)
-                    if kk and (kk == ("deref", ("local", vid, dvar["n"])) or kk[:2] == ("local", vid)):
+                    if any(y.get("k") == "Ref" and y.get("id") in writer_ids for y in C.walk(a)):
                         return True
         return False
+
+    released = [x for x in C.walk_stmt(drv["body"]) if x.get("k") == "Call" and x.get("n") == "release" and
+                x.get("obj") is not None and C.strip_casts(x["obj"]).get("id") == dvar["id"]]
+    if raii and not released:
+        # a block-local std::unique_ptr owner: the writer is destroyed when the block is left, on every path.  What remains to
+        # be shown is that the owner is local to the step (declared inside the loop) and that something is written through it.
+        loops = [s_ for s_ in C.walk_stmt(drv["body"]) if s_.get("k") in ("While", "Do", "For") and
+                 any(y is dnode.ast for y in C.walk_stmt(s_.get("body")))]
+        wrote_any = any(is_write_through(n_, dvar["id"]) for n_ in gd.nodes if n_ is not dnode)
+        chk.require(bool(loops), "U5", "writer is deleted (flushed, closed) on every path", where(dnode.ast, drv),
+                    "the owning unique_ptr is not local to one step of the loop", function=drv["qname"],
+                    construct="delete restart_writer")
+        chk.require(wrote_any, "U5", "state is written through the writer before it is closed", where(dnode.ast, drv),
+                    "nothing is written through the writer", function=drv["qname"], construct="write before delete")
 
     def tr5(node, st):
         held, wrote = st
@@ -538,51 +581,119 @@ def run(chk, prog):
             return [(None, (held, True))]
         return [(None, st)]
 
-    ex5 = C.explore(gd, (False, False), tr5)
-    bad = [st for st in ex5.at.get(gd.exit.id, ()) if st[0]]
-    bad_loop = [st for st in ex5.at.get(dnode.id, ()) if st[0]]
-    chk.require(not bad and not bad_loop, "U5", "writer is deleted (flushed, closed) on every path",
-                where(dnode.ast, drv), "a path from the dump site reaches the next step or the end of "
-                "the run without `delete` of the RestartWriter", function=drv["qname"],
-                construct="delete restart_writer")
-    del_nodes = [n for n in gd.nodes if is_delete_of(n, dvar["id"])]
-    wrote_ok = all(st[1] for n in del_nodes for st in ex5.at.get(n.id, ()) if st[0])
-    chk.require(bool(del_nodes) and wrote_ok, "U5", "state is written through the writer before it is closed",
-                where(dnode.ast, drv), "the writer is deleted on a path on which nothing was written",
-                function=drv["qname"], construct="write before delete")
+    if not (raii and not released):
+        ex5 = C.explore(gd, (False, False), tr5)
+        bad = [st for st in ex5.at.get(gd.exit.id, ()) if st[0]]
+        bad_loop = [st for st in ex5.at.get(dnode.id, ()) if st[0]]
+        chk.require(not bad and not bad_loop, "U5", "writer is deleted (flushed, closed) on every path",
+                    where(dnode.ast, drv), "a path from the dump site reaches the next step or the end of "
+                    "the run without `delete` of the RestartWriter", function=drv["qname"],
+                    construct="delete restart_writer")
+        del_nodes = [n for n in gd.nodes if is_delete_of(n, dvar["id"])]
+        wrote_ok = all(st[1] for n in del_nodes for st in ex5.at.get(n.id, ()) if st[0])
+        chk.require(bool(del_nodes) and wrote_ok, "U5", "state is written through the writer before it is closed",
+                    where(dnode.ast, drv), "the writer is deleted on a path on which nothing was written",
+                    function=drv["qname"], construct="write before delete")
 
     # stop request => dump precedes resubmit
     resub = [n for n in gd.nodes if n.kind == "stmt" and n.ast.get("k") != "Abort" and
              any(C.is_call(x, name="resubmit", cls="RestartManager") for x in C.walk(n.ast))]
-    stopdefs = []
+    def has_stop_call(e):
+        return e is not None and any(C.is_call(x, name="stop_simulation", cls="RestartManager") for x in C.walk(e))
+    # the stop flag: the variable assigned from RestartManager::stop_simulation(), directly or under a test of it
+    stopkeys = set()
     for node in gd.nodes:
-        if node.kind == "stmt" and node.ast.get("k") == "Bin" and node.ast["op"] == "=" and \
-                any(C.is_call(x, name="stop_simulation", cls="RestartManager") for x in C.walk(node.ast["b"])):
-            stopdefs.append(node)
-    if len(resub) != 1 or len(stopdefs) != 1:
-        raise AnalysisBroken("expected one resubmit() and one stop_simulation() assignment in the RHD driver")
-    stopkey = C.ref_key(stopdefs[0].ast["a"])
+        if node.kind == "stmt" and node.ast.get("k") == "Bin" and node.ast["op"] == "=" and has_stop_call(node.ast["b"]):
+            stopkeys.add(C.ref_key(node.ast["a"]))
+        if node.kind == "decl":
+            for d in node.ast["d"]:
+                if has_stop_call(d.get("init")) and (d.get("t") or "").replace("const ", "").strip() == "bool":
+                    stopkeys.add(("local", d["id"], d["n"]))
+    if not stopkeys:
+        for st_ in C.walk_stmt(drv["body"]):
+            if st_.get("k") == "If" and has_stop_call(st_["c"]):
+                for y in C.walk_stmt(st_["th"]):
+                    if y.get("k") == "Bin" and y.get("op") == "=" and C.strip_casts(y["b"]).get("k") == "Bool":
+                        stopkeys.add(C.ref_key(y["a"]))
+    stopkeys.discard(None)
+    if len(resub) != 1 or len(stopkeys) != 1:
+        raise AnalysisBroken("expected one resubmit() and one stop flag fed by RestartManager::stop_simulation() in the RHD "
+                             "driver (found %d, %d)" % (len(resub), len(stopkeys)))
+    stopkey = next(iter(stopkeys))
+
+    def rhs_value(e, val, flags):
+        """True / False / None: value of a boolean expression given the stop flag's value and the locals known true."""
+        e = C.strip_casts(e)
+        if e is None:
+            return None
+        if e.get("k") == "Bool":
+            return bool(e["v"])
+        if C.ref_key(e) == stopkey and e.get("k") == "Ref":
+            return val if val in (True, False) else None
+        if e.get("k") == "Ref" and e.get("id") in flags:
+            return True
+        if e.get("k") == "Bin" and e["op"] == "||":
+            a, b = rhs_value(e["a"], val, flags), rhs_value(e["b"], val, flags)
+            if a is True or b is True:
+                return True
+            return False if (a is False and b is False) else None
+        if e.get("k") == "Bin" and e["op"] == "&&":
+            a, b = rhs_value(e["a"], val, flags), rhs_value(e["b"], val, flags)
+            if a is False or b is False:
+                return False
+            return True if (a is True and b is True) else None
+        return None
+
+    def disjuncts(e):
+        e = C.strip_casts(e)
+        if e is not None and e.get("k") == "Bin" and e["op"] == "||":
+            return disjuncts(e["a"]) + disjuncts(e["b"])
+        return [e]
 
     def tr6(node, st):
-        val, dumped = st
-        if node is stopdefs[0]:
-            return [(None, (None, False))]
+        val, dumped, flags, disj = st
         if node is dnode:
-            return [(None, (val, True))]
-        if node.kind == "branch" and C.ref_key(node.ast) == stopkey and C.strip_casts(node.ast).get("k") == "Ref":
-            outs = []
-            if val in (None, True):
-                outs.append((True, (True, dumped)))
-            if val in (None, False):
-                outs.append((False, (False, dumped)))
-            return outs
-        if node.kind in ("stmt", "decl") and node.ast.get("k") != "Abort":
+            return [(None, (val, True, flags, disj))]
+        if node.kind == "branch" and C.strip_casts(node.ast).get("k") == "Ref":
+            rid = C.strip_casts(node.ast).get("id")
+            if C.ref_key(node.ast) == stopkey:
+                outs = []
+                if val in (None, True, "init"):
+                    outs.append((True, (True if val != "init" else "init", dumped, flags, disj)))
+                if val in (None, False, "init"):
+                    outs.append((False, (False if val != "init" else "init", dumped, flags, disj)))
+                return outs
+            if rid in flags:
+                return [(True, st)]
+            if rid in disj:
+                # X = ... || stop:  X false implies stop false
+                outs = [(True, st)]
+                if val is not True:
+                    outs.append((False, (False if val != "init" else "init", dumped, flags, disj)))
+                return outs
+        if node.kind == "decl":
+            nf, nd = set(flags), set(disj)
+            for d in node.ast["d"]:
+                if d.get("init") is not None and (d.get("t") or "").replace("const ", "").strip() == "bool":
+                    if ("local", d["id"], d["n"]) == stopkey:
+                        return [(None, (rhs_value(d["init"], val, flags), False, flags, disj))]
+                    if rhs_value(d["init"], val, flags) is True:
+                        nf.add(d["id"])
+                    else:
+                        nf.discard(d["id"])
+                    if any(x is not None and x.get("k") == "Ref" and C.ref_key(x) == stopkey for x in disjuncts(d["init"])):
+                        nd.add(d["id"])
+                    else:
+                        nd.discard(d["id"])
+            return [(None, (val, dumped, frozenset(nf), frozenset(nd)))]
+        if node.kind == "stmt" and node.ast.get("k") != "Abort":
             for key, op, x in _writes(node.ast):
                 if key == stopkey:
-                    return [(None, (None, dumped))]
+                    v = rhs_value(node.ast.get("b"), val, flags) if node.ast.get("k") == "Bin" and node.ast.get("op") == "=" else None
+                    return [(None, (v, False, flags, frozenset()))]
         return [(None, st)]
 
-    ex6 = C.explore(gd, ("init", True), tr6)
+    ex6 = C.explore(gd, ("init", True, frozenset(), frozenset()), tr6)
     sts = ex6.at.get(resub[0].id, set())
     bad = [st for st in sts if st[0] != "init" and not st[1]]
     # resubmit only under a stop request
